@@ -83,6 +83,16 @@ func next(name, kind string) (string, bool) {
 	if pos >= len(tape.Draws) {
 		return "", false
 	}
+	if os.Getenv("VERIF_TAPE_LENIENT") != "" {
+		// lenient replay (race confirmation): take the next draw of that name, defaults when there is none
+		for i := pos; i < len(tape.Draws); i++ {
+			if tape.Draws[i].Name == name {
+				pos = i + 1
+				return tape.Draws[i].Value, true
+			}
+		}
+		return "", false
+	}
 	d := tape.Draws[pos]
 	pos++
 	if d.Name != name {
@@ -220,6 +230,7 @@ func MutexHeld(m *sync.Mutex) bool {
 func ProvKind(b []byte) string          { return "" }
 func ProvStr(b []byte, path string) string { return "<none>" }
 func StartAccessLog()                   {}
+func DumpAccesses(tag string)           {}
 
 // Fact records a concrete fact (engine: aggregated over all paths; natively: trace line).
 func Fact(tag string, a, b, c int) { Log(fmt.Sprintf("fact %s:%d:%d:%d", tag, a, b, c)) }
@@ -276,3 +287,13 @@ func BytesInRange(s string, lo, hi byte, except string) bool {
 }
 
 func ValidUTF8(s string) bool { return utf8.ValidString(s) }
+
+// Param: a harness parameter (engine: -param name=value; natively: the recorded draw, else the default).
+func Param(name string, def int) int {
+	v, ok := next(name, "param")
+	if !ok {
+		return def
+	}
+	n, _ := strconv.Atoi(v)
+	return n
+}
